@@ -129,6 +129,27 @@ _BINOP_DUNDER = {ast.Add: 'add', ast.Sub: 'sub', ast.Mult: 'mul', ast.Div: 'true
                  ast.Pow: 'pow', ast.BitAnd: 'and', ast.BitOr: 'or', ast.BitXor: 'xor', ast.LShift: 'lshift', ast.RShift: 'rshift'}
 _CMP_DUNDER = {ast.Eq: ('__eq__', '__eq__'), ast.NotEq: ('__ne__', '__ne__'), ast.Lt: ('__lt__', '__gt__'),
                ast.LtE: ('__le__', '__ge__'), ast.Gt: ('__gt__', '__lt__'), ast.GtE: ('__ge__', '__le__')}
+# Pure library calls on constants are folded like arithmetic on constants (constant propagation through the standard library):
+# regular expressions, calendar arithmetic, math. Their results are ordinary Python objects of these types.
+import re as _re
+import datetime as _dt
+import math as _math
+import decimal as _decimal
+_PURE_LIBS = {'re': _re, 'datetime': _dt, 'math': _math}
+_PURE_TYPES = (_re.Match, _re.Pattern, _dt.datetime, _dt.date, _dt.timedelta, _dt.time)
+_PURE_DENY = {'datetime.datetime.now', 'datetime.datetime.today', 'datetime.date.today', 'datetime.datetime.utcnow'}
+
+
+def _concrete(v, depth=0):
+    if v is None or isinstance(v, (bool, int, float, str, bytes, complex) + _PURE_TYPES):
+        return True
+    if depth < 4 and isinstance(v, (tuple, list, set, frozenset)):
+        return all(_concrete(x, depth + 1) for x in v)
+    if depth < 4 and isinstance(v, dict):
+        return all(_concrete(k, depth + 1) and _concrete(x, depth + 1) for k, x in v.items())
+    return False
+
+
 _NUM_DUNDERS = {'__trunc__', '__neg__', '__pos__', '__abs__', '__round__', '__floor__', '__ceil__', 'is_integer'}
 
 
@@ -441,6 +462,17 @@ class Interp:
                 if gref:
                     return Ref(gref)
                 raise Unmodelled(f'unbound name {n.id}')
+            if isinstance(val, Ref) and val.ref.startswith('ext:') and '(' in val.ref and gref and gref.startswith('pkg:'):
+                gm_, gnode_ = self.a.res.lookup(gref)
+                if isinstance(gnode_, ast.Call):
+                    try:
+                        sub_ = Interp(self.a, gm_, {}, world=self.world)
+                        val2 = sub_.ev(gnode_)
+                        if isinstance(val2, _PURE_TYPES):
+                            self.world.globals[gref] = val2
+                            return val2
+                    except Unmodelled:
+                        pass
             if isinstance(val, (dict, list, set)) and gref and gref.startswith('pkg:'):
                 # a module-level mutable object: one object per world, so that what one call stores the next one finds
                 self.world.globals[gref] = val
@@ -487,6 +519,11 @@ class Interp:
                 if not hasattr(base, n.attr):
                     raise Unmodelled(f'model object has no attribute {n.attr}')
                 return getattr(base, n.attr)
+            if isinstance(base, _PURE_TYPES):
+                try:
+                    return getattr(base, n.attr)
+                except AttributeError:
+                    raise ExcRaised(Ref('builtin:AttributeError'))
             try:
                 return self.a.folder.fold(n, self.m, None, self.self_class)
             except Unfoldable:
@@ -671,6 +708,11 @@ class Interp:
                             return self.call_models[alt_](*args, **kwargs)
                     if self.inline_pkg or self.depth > 0 or self._decorated(meth_, 'classmethod'):
                         return self._call_method(None, recv.ref, cm_, meth_, args, kwargs)
+            if isinstance(recv, _PURE_TYPES) and all(_concrete(a_) for a_ in args) and all(_concrete(v_) for v_ in kwargs.values()):
+                try:
+                    return getattr(recv, fn.attr)(*args, **kwargs)
+                except Exception as exc:
+                    raise ExcRaised(Ref(f'builtin:{type(exc).__name__}'))
             if isinstance(recv, (str, int, float)) and not isinstance(recv, bool) and (
                     fn.attr in _STR_METHODS or fn.attr in _NUM_DUNDERS):
                 try:
@@ -721,6 +763,10 @@ class Interp:
         for key in (ref, text):
             if key in self.call_models:
                 return self.call_models[key](*args, **kwargs)
+        if ref and ref.startswith('ext:') and ref not in self.call_models:
+            done, res = self._pure_call(ref[4:], args, kwargs)
+            if done:
+                return res
         if ref == 'builtin:type' and len(args) == 1 and 'builtin:type' not in self.call_models:
             return self._type_of(args[0])
         if ref and ref.startswith('builtin:') and ref[8:] in _DUNDER_OF and len(args) >= 1 and isinstance(args[0], Rec) \
@@ -1493,3 +1539,22 @@ class Interp:
         args = first + [self.ev(a) for a in expr.args]
         kwargs = {k.arg: self.ev(k.value) for k in expr.keywords if k.arg}
         return om, fnode, args, kwargs, self_class
+
+    def _pure_call(self, dotted_name, args, kwargs):
+        """(done, value): a call into re / datetime / math with concrete arguments is folded."""
+        parts = dotted_name.split('.')
+        if parts[0] not in _PURE_LIBS or dotted_name in _PURE_DENY:
+            return False, None
+        if not all(_concrete(a) for a in args) or not all(_concrete(v) for v in kwargs.values()):
+            return False, None
+        obj = _PURE_LIBS[parts[0]]
+        for p_ in parts[1:]:
+            obj = getattr(obj, p_, None)
+            if obj is None:
+                return False, None
+        if not callable(obj):
+            return False, None
+        try:
+            return True, obj(*args, **kwargs)
+        except Exception as exc:
+            raise ExcRaised(Ref(f'builtin:{type(exc).__name__}'))
